@@ -155,6 +155,31 @@ macro_rules! dispatch {
     };
 }
 
+/// `n` calls in a row without the accessor sweep (volume workloads): how many were accepted, or the first panic
+/// with its index.
+pub fn bulk_as<K: EnrKey>(arg: (usize, &[u8], &str, &str)) -> Result<[usize; 3], (usize, String)> {
+    let (n, buf, text, doc) = arg;
+    let mut acc = [0usize; 3];
+    for i in 0..n {
+        let r = guard(|| {
+            let mut b = buf;
+            (Enr::<K>::decode(&mut b).is_ok(), text.parse::<Enr<K>>().is_ok(), serde_json::from_str::<Enr<K>>(doc).is_ok())
+        });
+        match r {
+            Ok((a, b, c)) => {
+                acc[0] += a as usize;
+                acc[1] += b as usize;
+                acc[2] += c as usize;
+            }
+            Err(p) => return Err((i, p)),
+        }
+    }
+    Ok(acc)
+}
+pub fn bulk_kt(kt: KT, n: usize, buf: &[u8], text: &str, doc: &str) -> Result<[usize; 3], (usize, String)> {
+    dispatch!(kt, bulk_as, (n, buf, text, doc))
+}
+
 pub fn decode_kt(kt: KT, buf: &[u8]) -> DecOut {
     dispatch!(kt, decode_as, buf)
 }
